@@ -122,7 +122,7 @@ func (s *Type) UnSubscribe(topic string) error {
 // Publish message accordingly to subscriber state
 // online: forward message to session
 // offline: persist message
-func (s *Type) Publish(pkt *mqttp.Publish, grantedQoS mqttp.QosType, _ mqttp.SubscriptionOptions, ids []uint32) error {
+func (s *Type) Publish(pkt *mqttp.Publish, grantedQoS mqttp.QosType, ops mqttp.SubscriptionOptions, ids []uint32) error {
 	select {
 	case <-s.quit:
 		return nil
@@ -143,23 +143,15 @@ func (s *Type) Publish(pkt *mqttp.Publish, grantedQoS mqttp.QosType, _ mqttp.Sub
 		pkt.SetPacketID(0)
 	}
 
-	// nolint: gocritic
-	switch grantedQoS {
-	// If a subscribing Client has been granted maximum QoS 1 for a particular Topic Filter, then a
-	// QoS 0 Application Message matching the filter is delivered to the Client at QoS 0. This means
-	// that at most one copy of the message is received by the Client. On the other hand, a QoS 2
-	// Message published to the same topic is downgraded by the Server to QoS 1 for delivery to the
-	// Client, so that Client might receive duplicate copies of the Message.
-	case mqttp.QoS1:
-		if pkt.QoS() == mqttp.QoS2 {
-			_ = pkt.SetQoS(mqttp.QoS1)
-		}
+	// [MQTT-3.8.4-8] the message is delivered at the lower of the published and the granted QoS:
+	// a QoS 0 subscription gets at most one copy, a QoS 1 subscription gets QoS 2 messages at QoS 1
+	if pkt.QoS() > grantedQoS {
+		_ = pkt.SetQoS(grantedQoS)
+	}
 
-		// If the subscribing Client has been granted maximum QoS 0, then an Application Message
-		// originally published as QoS 2 might get lost on the hop to the Client, but the Server should never
-		// send a duplicate of that Message. A QoS 1 Message published to the same topic might either get
-		// lost or duplicated on its transmission to that Client.
-		// case message.QoS0:
+	// [MQTT-3.3.1-12] RETAIN is forwarded as published only to Retain As Published subscriptions
+	if !ops.RAP() {
+		pkt.SetRetain(false)
 	}
 
 	s.lock.RLock()
